@@ -20,6 +20,7 @@ func init() {
 			ruleHorzJoinRoles("C01.horz-roles"),
 			ruleSplitOnAdvance("C01.join.advance"),
 			ruleMergedOwner("C01.merged-owner"),
+			ruleEveryPathEntersRing("C01.all-paths"),
 			ruleShoelaceConvention("C01.area-sign", []string{"areaTriangle", "areaOP", "Area64", "AreaD"}, 3),
 			ruleWindingInvariant("C01.wind"),
 			ruleContribClosed("C01.table"),
@@ -38,6 +39,7 @@ func init() {
 		explanation: "Decides structural clauses of C09: (table) isContributingOpen equals the property's coverage table (Intersection: inside clip; Union: outside both; Difference: outside clip) on every cell of (fillRule, clipType, windCount, windCount2); (guard) an open edge is cut at a closed edge exactly when that edge bounds its own set; (skip) winding scans neither count nor are changed by open edges; (route) open records reach only the open solution; (horz) an open path's terminal horizontal consults the range test before intersecting a further edge. Also: (skip/search) the search for the nearest closed edge of the same set passes over open edges; (prev-hot) getPrevHotEdge returns only an edge it found hot and not open; (scratch) each open piece is built in a new variable (typestate). Does NOT decide cut positions or that pieces are sub-polylines.",
 		notDecided: []string{"cut positions (intersection rounding)", "sub-polyline-ness of the pieces", "horizontal open edges in doHorizontal", "Xor for open paths (the property does not constrain it)"},
 		rules: []func(*Ctx){
+			ruleOpenCutCandidates("C09.cut-at"),
 			rulePrevHotEdge("C09.prev-hot"),
 			ruleScratchLocal("C09.scratch", []string{"(clipperBase).buildTree", "(clipperBase).buildPaths"}, 2, "every open piece is handed to the open solution by reference; filling the same variable for the next piece overwrites the earlier ones — visible only with two or more pieces"),
 			ruleContribOpen("C09.table"),
@@ -81,7 +83,8 @@ func init() {
 		id: "C07",
 		explanation: "Decides structural clauses of C07 for every D entry point (enumerated by type): (prec) the precision that reaches math.Pow(10,p) is the caller's value unmodified (a constant 2 only when the optional argument is absent) and a [-8,8] range check with the ErrPrecisionRange panic dominates it; (in) every PathD/PathsD/RectD input reaches 64-bit code only through ScalePath(s)DToPath(s)64/ScaleRectD with this call's scale, delta and arc tolerance are multiplied by it, the miter limit is not; (out) every PathD/PathsD result is ScalePath(s)64ToPath(s)D(x, 1/scale) with the same scale (or delegated to another D entry point); (round) the quantiser rounds coord*scale to an integer axis by axis and rectangles use the same quantiser; (same) after removing scaling and validation the wrapper calls exactly what its 64-bit sibling calls, with the same constants. Does NOT decide bit-exact equality of the decimal round trip or float overflow at the domain edge.",
 		notDecided: []string{"bit-exactness of ScalePath64ToPathD's decimal multiplication", "float overflow when |coord|*10^p leaves the integer domain", "behaviour of caller-supplied scale functions (*WithScaleFunc)"},
-		rules:      []func(*Ctx){ruleScale("C07"), ruleQuantiserReturns("C07.round.returns")},
+		rules:      []func(*Ctx){
+			ruleDescaleExact("C07.descale", []string{"ScalePath64ToPathD"}),ruleScale("C07"), ruleQuantiserReturns("C07.round.returns")},
 	})
 }
 
@@ -176,6 +179,9 @@ func init() {
 		explanation: "Decides structural clauses of C05: (join) offsetPoint's dispatch over JoinType builds exactly the constructor set of the property's table (Miter: miter or square by the limit test; Square: square; Bevel: bevel; Round: arc; the near-straight shortcut uses doMiter only for non-round joins; the concave arm emits perp(prev), vertex, perp(curr)); (sign) groupDelta is -delta / +delta / |delta| by (end type, pathsReversed), arcs turn with the sign of groupDelta, NewGroup strips duplicates with the right closed flag and takes the orientation from the path owning the lowest vertex; (union) the clean-up is Execute(Union, reversed ? Negative : Positive) with reverseSolution = ReverseSolution != reversed; (small) |delta| < 0.5 returns the stripped input before any constructor; (xy) every point constructed in offset.go pairs X with X and Y with Y (rotations exempted by name). Does NOT decide any distance statement (band containment, k*delta bound, arc tolerance), over-shrinking or hole growth.",
 		notDecided: []string{"containment of the (delta - tol) band and the k*delta outer bound", "arc tolerance of round joins", "over-shrinking to empty, hole growth", "the numeric thresholds of the dispatch (0.999, mitLimSqr)"},
 		rules: []func(*Ctx){
+			ruleArcSignFollowsGroup("C05.arc-sign"),
+			ruleOffsetAlwaysEmits("C05.emit-all", []string{"(ClipperOffset).offsetPolygon", "(ClipperOffset).offsetOpenJoined", "(ClipperOffset).offsetOpenPath"}),
+			ruleIntersectPointMirror("C05.ipt"),
 			ruleJoinDispatch("C05.join"), ruleGroupDelta("C05.sign"), ruleOffsetUnion("C05.union"), ruleXY("C05.xy", []string{"offset.go"}, 15), ruleOffsetWiring("C05.wire"),
 		},
 	})
@@ -205,6 +211,7 @@ func init() {
 		rules: []func(*Ctx){
 			ruleSimplify("C16"),
 			ruleUnflaggedReturn("C16.ring", []string{"getNext", "getPrior"}),
+			ruleSimplifyEarly("C16.early", []string{"SimplifyPath64", "SimplifyPathD"}),
 			ruleSibling("C16.sibling", [][2]string{{"SimplifyPath64", "SimplifyPathD"}, {"SimplifyPaths64", "SimplifyPathsD"}},
 				map[string]string{"Path64": "PathD", "Paths64": "PathsD", "PerpendicDistFromLineSqr64": "PerpendicDistFromLineSqrD", "SimplifyPath64": "SimplifyPathD"},
 				"the two variants implement one algorithm; where they differ one of them is wrong (or both are and the property is judged on each)"),
@@ -242,6 +249,7 @@ func init() {
 			ruleSegIntersectMirror("C06.mirror.seg"),
 			ruleInsideArmMirror("C06.mirror.inside"),
 			ruleRetireBeforeRelabel("C06.retire"),
+			ruleRectSkipOnly("C06.skip-only", "(RectClip64).Execute", []string{"(RectClip64).executeInternal"}),
 			ruleCyclicPred("C06.wrap", []string{"(RectClip64).executeInternal"}, 1, "the polygon is closed: the edge entering vertex 0 starts at the LAST vertex; any other choice clips a segment that is not an edge of the input"),
 			ruleDead("C06.corner-live", []string{"(RectClip64).executeInternal"}, []string{"(RectClip64).addCorner", "(RectClip64).addCornerLocation"}, 5, "corners of the rectangle enter the result only through these calls; when they are dead a path that leaves through one edge and re-enters through another loses the corner between them"),
 			ruleRectFast("C06.fast"),
